@@ -9,10 +9,11 @@ from unified_planning.shortcuts import (Problem, Fluent, DurativeAction, Instant
 
 
 class TGen:
-    def __init__(self, seed, fixed_durations=False, timed=True):
+    def __init__(self, seed, fixed_durations=False, timed=True, simple=False):
         self.rng = random.Random(seed)
         self.fixed = fixed_durations
         self.timed = timed
+        self.simple = simple      # no intermediate effects, no conditional effects
 
     def p(self, x):
         return self.rng.random() < x
@@ -54,7 +55,7 @@ class TGen:
                     mk = rng.choice([ClosedTimeInterval, OpenTimeInterval, LeftOpenTimeInterval, RightOpenTimeInterval])
                     a.add_condition(mk(StartTiming(), EndTiming()), c)
             for _ in range(rng.randint(1, 3)):
-                t = rng.choice([StartTiming(), EndTiming(), EndTiming(), StartTiming() + 1 if not self.fixed else StartTiming()])
+                t = rng.choice([StartTiming(), EndTiming(), EndTiming(), StartTiming() + 1 if not (self.fixed or self.simple) else StartTiming()])
                 self.add_effect(a, t, scope)
             pr.add_action(a)
         if self.p(0.5):
@@ -109,7 +110,7 @@ class TGen:
                 return
             else:
                 tgt, val = fl["n"](), (Plus(fl["n"](), Int(1)) if self.p(0.3) else rng.randint(0, 3))
-            cond = self.lit(scope) if self.p(0.2) else TRUE()
+            cond = self.lit(scope) if (self.p(0.2) and not self.simple) else TRUE()
             if timing is None:
                 a.add_effect(tgt, val, cond)
             else:
